@@ -53,6 +53,17 @@ class StopShrink(BaseException):
     """Aborts Hypothesis once the shrink budget is used up."""
 
 
+class CaseTimeout(Exception):
+    """The code under test did not return within the per-case watchdog (non-termination)."""
+
+
+CASE_TIMEOUT_S = int(os.environ.get("VERIF_CASE_TIMEOUT_S", "150"))
+
+
+def _alarm(signum, frame):
+    raise CaseTimeout()
+
+
 def jdefault(o):
     if isinstance(o, Fraction):
         return str(o)
@@ -145,9 +156,19 @@ class Ctx:
         try:
             if self.failure is None:
                 self.evaluations += 1
-            oracle(case)
+            self.timed(oracle, case)
         except Abstain as a:
             self.abstain(a.reason)
+        except CaseTimeout:
+            # A case normally costs milliseconds; CASE_TIMEOUT_S (150 s) without returning is
+            # reported as non-termination of the code under test.  Not shrunk (each attempt
+            # would cost the full timeout).
+            v = Violation("hang", f"no result within {CASE_TIMEOUT_S}s (non-termination)", case)
+            if v.sig in self.known_sigs:
+                self.excluded_known[v.sig] += 1
+                return
+            self.failure = {"size": len(jdump(case)), "sig": v.sig, "message": v.message, "case": case, "extra": None}
+            raise StopShrink()
         except Violation as v:
             if v.sig in self.known_sigs:
                 self.excluded_known[v.sig] += 1
@@ -159,6 +180,16 @@ class Ctx:
                 self._calls_after_failure += 1
                 if self._calls_after_failure > self.shrink_budget:
                     raise StopShrink()
+
+    def timed(self, fn, *args):
+        import signal
+
+        signal.signal(signal.SIGALRM, _alarm)
+        signal.setitimer(signal.ITIMER_REAL, CASE_TIMEOUT_S)
+        try:
+            return fn(*args)
+        finally:
+            signal.setitimer(signal.ITIMER_REAL, 0)
 
     def _record_failure(self, v: Violation, case: Any):
         c = v.case if v.case is not None else case
@@ -416,7 +447,11 @@ def main_run(prop: str, tier: str, seed: int, replay_path: Optional[str] = None,
         ctx = Ctx(prop, tier, seed, 0, 1)
         ctx.known_sigs = set()
         try:
-            mod.replay(ctx, rep["case"])
+            ctx.timed(mod.replay, ctx, rep["case"])
+        except CaseTimeout:
+            print(f"replay: no result within {CASE_TIMEOUT_S}s (non-termination)")
+            print(f"VIOLATION property={prop} replay={replay_path}")
+            return 1
         except Violation as v:
             print(f"replay: {v}")
             print(f"VIOLATION property={prop} replay={replay_path}")
